@@ -57,8 +57,12 @@ check("C13", "model_checking",
       "payload = code(channel, record). Schedule arm (config B): sender tasks, receiver tasks, the gateway's spawned stream task and "
       "the transport under the preemption-bounded DFS scheduler inside an exploration window.",
       [{"name": "channels", "config": "A", "test": "verif::c13::run", "timeout": {"quick": 900, "thorough": 3600},
-        "require": {"any": {"channel_cases": 10000, "isolation_receives": 500}}}],
+        "require": {"any": {"channel_cases": 10000, "isolation_receives": 500}}},
+       {"name": "sched", "config": "B", "test": "verif::c13s::run", "workers": {"quick": 16, "thorough": 16},
+        "timeout": {"quick": 900, "thorough": 7200}, "require": {"any": {"distinct:completion_orders": 2}}}],
       assumptions=["in-memory transport only (the HTTP transport is outside the anchors)",
+                   "shuttle models every atomic as SeqCst; tokio mpsc / DashMap operations inside the transport execute atomically within a step; "
+                   "preemption bounds as listed in coverage.set_sched.bounds_completed",
                    "receive requests for record j are only served while the requests for all lower records of the window are outstanding "
                    "(UnorderedReceiver's documented contract): one-by-one awaiting is enumerated in record order only"],
       exhaustive=True, engine="E5 domain + E2 sched",
@@ -402,8 +406,13 @@ check("C19", "model_checking",
       [{"name": "grid", "config": "A", "test": "verif::c19::run", "timeout": {"quick": 900, "thorough": 3600},
         "require": {"any": {"honest_runs": 200, "error_runs": 20, "transport_faults_failed_loudly": 10}}},
        {"name": "prf", "config": "A", "test": "verif::c19p::run", "timeout": {"quick": 900, "thorough": 3600},
-        "require": {"any": {"prf_faults_failed_loudly": 10}}}],
-      assumptions=["records are plain field values (Fp32BitPrime) identical on the three helpers; alignment is checked as equality of the three helpers' vectors"],
+        "require": {"any": {"prf_faults_failed_loudly": 10}}},
+       {"name": "sched", "config": "B", "test": "verif::c19s::run", "workers": {"quick": 16, "thorough": 16},
+        "timeout": {"quick": 900, "thorough": 7200}, "require": {"any": {"schedules": 5000}}}],
+      assumptions=["shuttle models every atomic as SeqCst; tokio mpsc / DashMap operations inside the transport execute atomically within a step",
+                   "schedule exploration covers the shards of one helper (resharding does not talk to other helpers), <= 3 records per shard, "
+                   "preemption bounds as listed in coverage.set_sched.bounds_completed",
+                   "records are plain field values (Fp32BitPrime) identical on the three helpers; alignment is checked as equality of the three helpers' vectors"],
       exhaustive=True, engine="E5 domain + E3 fault + E2 sched",
       technique="bounded exhaustive enumeration of (shard count x input size x placement x picker), of error positions and of "
                 "single-record corruptions of every shard-to-shard stream, executed on the real resharding code over the in-memory "
